@@ -1,7 +1,7 @@
 SPECIFICATION Spec
 CONSTANTS
   GapSet = {"sp", "nl"}
-  ObjForms = {"o.pn", "o.abs", "o.rel", "o.bn", "o.int", "o.pint", "o.nint", "o.str", "o.xsd", "o.dti", "o.dtp", "o.dtg", "o.bs", "o.lang", "o.spec", "o.esc", "o.https"}
+  ObjForms = {"o.pn", "o.abs", "o.rel", "o.bn", "o.int", "o.pint", "o.nint", "o.dot", "o.str", "o.xsd", "o.dti", "o.dtp", "o.dtg", "o.bs", "o.lang", "o.spec", "o.esc", "o.https"}
   SubjForms = {"s.pn", "s.abs", "s.rel", "s.bn", "s.https", "s.bs"}
 INVARIANT GeneratorLemma
 INVARIANT C07Design
